@@ -95,7 +95,8 @@ def different_value(g, v):
         if g.chance(0.4):
             # the same clock reading under another UTC offset (or none) is another instant
             tzs = [None, datetime.timezone.utc, datetime.timezone(datetime.timedelta(hours=5))]
-            return v.replace(tzinfo=g.choice([z for z in tzs if z != v.tzinfo]))
+            off = lambda z: None if z is None else z.utcoffset(None)     # (tzinfo objects of different libraries compare unequal)
+            return v.replace(tzinfo=g.choice([z for z in tzs if off(z) != v.utcoffset()]))
         return v + datetime.timedelta(days=1)
     return None
 
